@@ -27,6 +27,15 @@ func backSlice(v ssa.Value, visit func(ssa.Value) bool) {
 			return
 		}
 		switch y := x.(type) {
+		case *ssa.Parameter:
+			// a private helper's parameter is the argument at its only call site (inline.go)
+			if h := helperOf(y.Parent()); h != nil && y.Parent().Parent() == nil {
+				for _, st := range h.sites {
+					if idx := paramIndex(y.Parent(), y); idx >= 0 && idx < len(st.Common().Args) {
+						walk(st.Common().Args[idx])
+					}
+				}
+			}
 		case *ssa.Phi:
 			for _, e := range y.Edges {
 				walk(e)
@@ -44,6 +53,15 @@ func backSlice(v ssa.Value, visit func(ssa.Value) bool) {
 		case *ssa.Lookup:
 			walk(y.X)
 		case *ssa.Extract:
+			if call, isC := y.Tuple.(*ssa.Call); isC {
+				if cal := call.Call.StaticCallee(); cal != nil && helperOf(cal) != nil && cal.Parent() == nil {
+					for _, b := range cal.Blocks {
+						if r, isR := b.Instrs[len(b.Instrs)-1].(*ssa.Return); isR && b != cal.Recover && y.Index < len(r.Results) {
+							walk(resolveSpill(r.Results[y.Index], r))
+						}
+					}
+				}
+			}
 			walk(y.Tuple)
 		case *ssa.Next:
 			walk(y.Iter)
@@ -77,6 +95,15 @@ func backSlice(v ssa.Value, visit func(ssa.Value) bool) {
 				}
 			}
 		case *ssa.Call:
+			// the single-result value of a private helper is what the helper returns (inline.go)
+			if cal := y.Call.StaticCallee(); cal != nil && helperOf(cal) != nil && cal.Parent() == nil && cal.Signature.Results().Len() == 1 {
+				for _, b := range cal.Blocks {
+					if r, isR := b.Instrs[len(b.Instrs)-1].(*ssa.Return); isR && b != cal.Recover && len(r.Results) == 1 {
+						walk(resolveSpill(r.Results[0], r))
+					}
+				}
+				break
+			}
 			// reflect.Value chains: ValueOf/Elem/Field/Index/Interface derive from their receiver/argument
 			if bi, ok := y.Call.Value.(*ssa.Builtin); ok && bi.Name() == "append" {
 				for _, a := range y.Call.Args {
